@@ -122,7 +122,7 @@ func genLifePlan(e *Env) *lifePlan {
 	if e.Prop == "C13" {
 		p.Mode = "serve"
 		p.Concurrency = Pick(e, 1, 2, 3)
-		if e.Chance(35) {
+		if e.Chance(50) {
 			// Stop arrives while connections are still being served
 			p.ShutdownMs = Pick(e, 0, 10, 100, 300, 1000, 2500)
 		}
